@@ -94,3 +94,46 @@ package platform
 //@   at call Write#1 assert #redacted-flag-is-passed-through has(op, "redacted") && typeis(get(op, "redacted"), "bool") && as(get(op, "redacted"), "bool") ==> arg1
 //@   at call Write#1 assert #input-is-the-definitions-input has(op, "input") && typeis(get(op, "input"), "string") && arg0 == as(get(op, "input"), "string")
 //@   ensures #input-must-be-a-string !(has(op, "input") && typeis(get(op, "input"), "string")) ==> isErr(result, util.ErrBadOption)
+
+// ---- C17: the shipped definition files are well-formed input for the code above ------------------------------------------
+// The embedded files are constants of the program; govc describes each one of the current tree to the solver as ground
+// facts (ykind/ystr/ylen/yitem/ykey/yget, see /verif/spec/stdlib.spec) and discharges the clauses below per file.
+// sect(d, v, key): the section a platform built from default d and variant v (0: none) ends up with - the doc-level
+// reading of mergeVariant's verified postcondition (a variant replaces exactly the non-empty sections it defines).
+//@ spec nonEmptyNode(n int) bool := (ykind(n) == 1 && ystr(n) != "") || ((ykind(n) == 5 || ykind(n) == 6) && ylen(n) > 0)
+//@ spec sect(d int, v int, key string) int := nonEmptyNode(yget(v, key)) ? yget(v, key) : yget(d, key)
+//@ spec opOf(st int) string := ytext(yget(st, "operation"))
+// what asGenericOnX / asNetworkOnX / channelWrite do not silently skip or reject
+//@ spec stepWF(st int, network bool, levels int) bool :=
+//@        ykind(st) == 6 && ykind(yget(st, "operation")) == 1
+//@     && (opOf(st) == "channel.write" || opOf(st) == "channel.return" || (network && (opOf(st) == "acquire-priv" || opOf(st) == "driver.send-command")))
+//@     && (opOf(st) == "channel.write" ==> ykind(yget(st, "input")) == 1 && (ykind(yget(st, "redacted")) == 0 || ykind(yget(st, "redacted")) == 4))
+//@     && (opOf(st) == "driver.send-command" ==> ykind(yget(st, "command")) == 1)
+//@     && (opOf(st) == "acquire-priv" ==> ykind(yget(st, "target")) == 0 || (ykind(yget(st, "target")) == 1 && ykind(yget(levels, ystr(yget(st, "target")))) == 6))
+//@ spec stepsWF(sec int, network bool, levels int) bool :=
+//@        (ykind(sec) == 0 || ykind(sec) == 5) && (ykind(sec) == 5 ==> forall k int :: 0 <= k && k < ylen(sec) ==> stepWF(yitem(sec, k), network, levels))
+//@ spec hooksWF(d int, v int) bool :=
+//@        stepsWF(sect(d, v, "on-open"), false, sect(d, v, "privilege-levels")) && stepsWF(sect(d, v, "on-close"), false, sect(d, v, "privilege-levels"))
+//@     && stepsWF(sect(d, v, "network-on-open"), true, sect(d, v, "privilege-levels")) && stepsWF(sect(d, v, "network-on-close"), true, sect(d, v, "privilege-levels"))
+//@ spec driverTypeWF(d int, v int) bool := ytext(sect(d, v, "driver-type")) == "generic" || ytext(sect(d, v, "driver-type")) == "network"
+// one level record: named like its key, has a pattern, and its previous-priv link is empty (the root) or names a level
+// one link closer to the root (ydepth is a witness supplied with the facts; it can only help the proof)
+//@ spec levelWF(levels int, k int) bool :=
+//@        ykind(yitem(levels, k)) == 6 && ytext(yget(yitem(levels, k), "name")) == ykey(levels, k)
+//@     && ytext(yget(yitem(levels, k), "pattern")) != ""
+//@     && ydepth(yitem(levels, k)) >= 0
+//@     && (ytext(yget(yitem(levels, k), "previous-priv")) == "" ? ydepth(yitem(levels, k)) == 0
+//@          : ykind(yget(levels, ytext(yget(yitem(levels, k), "previous-priv")))) == 6 && ydepth(yitem(levels, k)) == ydepth(yget(levels, ytext(yget(yitem(levels, k), "previous-priv")))) + 1)
+//@ spec levelsWF(levels int) bool :=
+//@        ykind(levels) == 6 && ylen(levels) > 0
+//@     && (forall k int :: 0 <= k && k < ylen(levels) ==> levelWF(levels, k))
+//@     && (forall j int, k int :: 0 <= j && j < ylen(levels) && 0 <= k && k < ylen(levels) && ydepth(yitem(levels, j)) == 0 && ydepth(yitem(levels, k)) == 0 ==> j == k)
+//@ spec networkWF(d int, v int) bool := ytext(sect(d, v, "driver-type")) == "network" ==>
+//@        levelsWF(sect(d, v, "privilege-levels")) && ykind(yget(sect(d, v, "privilege-levels"), ytext(sect(d, v, "default-desired-privilege-level")))) == 6
+//@ asset [C17] platforms/*.yaml except platforms/example.yaml
+//@   let def = yget(doc, "default")
+//@   let vars = yget(doc, "variants")
+//@   ensures #has-a-default-section ykind(doc) == 6 && ykind(def) == 6 && (ykind(vars) == 0 || ykind(vars) == 6)
+//@   ensures #driver-type-is-generic-or-network driverTypeWF(def, 0) && (ykind(vars) == 6 ==> forall k int :: 0 <= k && k < ylen(vars) ==> driverTypeWF(def, yitem(vars, k)))
+//@   ensures #hook-steps-are-ones-the-hook-executes hooksWF(def, 0) && (ykind(vars) == 6 ==> forall k int :: 0 <= k && k < ylen(vars) ==> hooksWF(def, yitem(vars, k)))
+//@   ensures #privilege-levels-form-one-tree-and-the-default-level-exists networkWF(def, 0) && (ykind(vars) == 6 ==> forall k int :: 0 <= k && k < ylen(vars) ==> networkWF(def, yitem(vars, k)))
